@@ -22,3 +22,6 @@ func bootAcquire() {}
 
 func runRelease() {}
 func runAcquire() {}
+
+// BootAcquire: see race_on.go.
+func BootAcquire() {}
